@@ -210,7 +210,7 @@ func (f *Frame) havocAll(why string) {
 	limit := tb.BVU(32, uint64(freshBase+f.u.objCtr+1))
 	f.cur.mem = f.cur.mem.clone()
 	for k, m := range f.cur.mem.m {
-		fresh := f.u.mc.NewBase("hv", m.sort, nil)
+		fresh := f.u.mc.NewBase("hv", m.sort, f.havocBound())
 		f.cur.mem.m[k] = f.u.mc.HavocObjs(m, limit, fresh)
 		f.cur.mem.m[k].except = f.u.privateSnapshot()
 	}
@@ -319,7 +319,7 @@ func (f *Frame) callFunc(fn *ssa.Function, args [][]*Term, bindings [][]*Term, i
 		for i, s := range ss {
 			r[i] = f.tb().UF(fmt.Sprintf("spec!%s!%d", q, i), s, flat...)
 		}
-		if !f.spec {
+		if ghost {
 			// ghost values denote data that exists independently of the execution: input world
 			for _, fact := range f.u.validFacts(rt, r, f.tb().BVU(32, freshBase)) {
 				if !fact.hasBV {
@@ -722,7 +722,10 @@ func (st *stubEval) enterPost(f *Frame) {
 		post = *st.newMem
 	} else {
 		// call-site mode: havoc what the callee may assign
+		save := st.caller.hvBound
+		st.caller.hvBound = f.tb().Add(st.callerFreshLimit, f.tb().BV(32, 1<<16))
 		post = st.caller.havocRegions(st.old, st.regions, st.assignsAll)
+		st.caller.hvBound = save
 		st.afterHavoc = post
 	}
 	// objects allocated by the stub itself since it started keep their content
@@ -738,12 +741,23 @@ func (st *stubEval) enterPost(f *Frame) {
 	f.cur.mem = post
 }
 
+// havocBound: references found in memory that a callee (or the iterations of a loop) may have
+// written denote objects that exist by then: everything allocated so far, and for a call by
+// contract the id band reserved for the callee's own allocations - not the ghost objects a
+// contract stub creates while it is evaluated.
+func (f *Frame) havocBound() *Term {
+	if f.hvBound != nil {
+		return f.hvBound
+	}
+	return f.tb().BVU(32, uint64(freshBase+f.u.objCtr+1))
+}
+
 func (f *Frame) havocRegions(mem MemState, regs []region, all bool) MemState {
 	out := mem.clone()
 	if all {
 		limit := f.tb().BVU(32, uint64(freshBase+f.u.objCtr+1))
 		for k, m := range out.m {
-			out.m[k] = f.u.mc.HavocObjs(m, limit, f.u.mc.NewBase("hv", m.sort, nil))
+			out.m[k] = f.u.mc.HavocObjs(m, limit, f.u.mc.NewBase("hv", m.sort, f.havocBound()))
 			out.m[k].except = f.u.privateSnapshot()
 		}
 		f.havocMaps(&out, limit)
@@ -752,7 +766,7 @@ func (f *Frame) havocRegions(mem MemState, regs []region, all bool) MemState {
 	for _, r := range regs {
 		for _, s := range r.sorts {
 			k := s.Key()
-			fresh := f.u.mc.NewBase("hv", s, nil)
+			fresh := f.u.mc.NewBase("hv", s, f.havocBound())
 			if r.cond.IsTrue() {
 				out.m[k] = f.u.mc.HavocRange(out.m[k], r.obj, r.lo, r.hi, fresh)
 			} else {
